@@ -13,7 +13,8 @@ substance is here, on the real code (metamorphic runs on fitted models and tiny 
   (iv)  scipy_minimize with n_jobs = 1 and n_jobs = 2 (fresh loky workers, other PYTHONHASHSEED) returns
         identical IndividualParameters.
   (v)   recorded programs (`trace_c07.py`, `Model/Trace.lean`): the torch operations the real code executes for every
-        individual-level variable of the State and for one step of `IndividualGibbsSampler.sample` are recorded on every
+        individual-level variable of the State and for steps of `IndividualGibbsSampler.sample` (an ordinary one and the one in
+        which the per-individual std adaptation fires; std and acceptance history are inputs and outputs) are recorded on every
         run and sent to Lean: `Trace.rowLocal` must accept the program (then `rowLocal_sound`, `perturb_others`,
         `perm_equivariant` hold for EVERY input of that shape), the Lean evaluation of the lowered program must reproduce
         the real tensors, the programs of different cohorts must coincide up to shapes, and each operation instance the
@@ -40,7 +41,8 @@ LEAN = dict(
               "permute_perm", "total_permute", "total_eq_sum_terms", "addTerms_get", "indStep_local",
               "rowLocal_rel", "rowLocal_sound", "perturb_others", "batch_size_irrelevant", "perm_equivariant",
               "perm_equivariant_rows", "lower_length", "exMasked_rowLocal", "exMasked_value", "axis0_sum_counterexample",
-              "axis0_sum_alone_counterexample", "misaligned_broadcast_counterexample"],
+              "axis0_sum_alone_counterexample", "misaligned_broadcast_counterexample",
+              "exAdapt_rowLocal", "exAdapt_value", "cohort_median_clamp_counterexample"],
     trusted_extra=[
         "Part 1 of Props/C07.lean is list algebra over a model in which the batch is List.map of a per-individual function "
         "(locality by construction). Part 2 is about the program recorded from the real code on this run: the theorems hold for "
@@ -627,6 +629,35 @@ def case_personalize(chk, env, name, seed, algos):
                  tags={"kind": "personalize", "algo": algo_name, "model": name, "outcome": "ok" if not fails else "fail"})
 
 
+def case_long_adapt(chk, env, name, seed, n_iter=1200):
+    """(i) on a long chain: a single-visit subject (accepts most proposals: its proposal std keeps growing) among well-observed
+    ones, default adaptive sampler, `n_iter` >= 1000 iterations (dozens of std adaptations); the observed values of the others
+    are replaced -> the subject's mean_posterior parameters must be bit-identical (same seed)."""
+    rng = random.Random(f"C07:long:{name}:{seed}")
+    df = base_frame(env, name)
+    all_ids = list(dict.fromkeys(df["ID"]))
+    ids = rng.sample(all_ids, 4)
+    keep = ids[-1]
+    case = {"kind": "personalize-long", "model": name, "seed": seed, "ids": ids, "keep": [keep], "n_iter": n_iter}
+    cdf = cohort_frame(env, df, ids)
+    first = cdf[cdf["ID"] == keep].head(1).index
+    cdf = cdf[(cdf["ID"] != keep) | cdf.index.isin(first)].reset_index(drop=True)
+    try:
+        base, _ = personalize(env, name, cdf, ids, "mean_posterior", seed, n_iter=n_iter)
+        pert, _ = personalize(env, name, perturb_others(env, name, cdf, {keep}, seed), ids, "mean_posterior", seed, n_iter=n_iter)
+    except Exception as e:  # noqa
+        chk.impl_failure(case, f"personalize failed: {s3.err_class(env, e)}: {str(e)[:200]}")
+        chk.case(("long", name, seed), nontrivial=False, tags={"kind": "personalize-long", "outcome": "error"})
+        return
+    ok = base.get(keep) == pert.get(keep)
+    if not ok:
+        chk.impl_failure(case, f"(i) mean_posterior with {n_iter} iterations: parameters of the single-visit subject {keep} changed "
+                               f"({base.get(keep)} -> {pert.get(keep)}) when only the observed values of the other subjects {ids[:-1]} were replaced (same seed)")
+    if all(base.get(i) == pert.get(i) for i in ids[:-1]):
+        chk.tag("degenerate", "perturbation-without-effect-on-others")
+    chk.case(("long", name, seed), nontrivial=True, tags={"kind": "personalize-long", "model": name, "outcome": "ok" if ok else "fail"})
+
+
 def case_njobs(chk, env, name, seed, hash_seeds):
     """(iv) scipy_minimize: n_jobs=1 (this interpreter) vs n_jobs=2 on fresh loky workers started with another PYTHONHASHSEED."""
     rng = random.Random(f"C07:nj:{name}:{seed}")
@@ -801,11 +832,31 @@ def trace_terms(env, state, n):
     return Rec("terms", n, T, outs, {"totals": totals, "sat": saturation(env, state)})
 
 
-def trace_sampler(env, algo, state, v, n, tinv):
-    """One `IndividualGibbsSampler.sample` step of variable `v` under the tracer (draws = individual-level inputs)."""
+def random_history(env, smp, ids, seed, seed_of=None):
+    """A per-individual acceptance history (history x individuals, 0/1): column i is drawn from individual i's own stream with its
+    own acceptance probability, so that both the too-low and the too-high branches of the adaptation are populated."""
+    torch = env.torch
+    H = int(smp.acceptation_history.shape[0])
+    cols = []
+    for i in ids:
+        r = random.Random(f"trhist:{seed if seed_of is None else seed_of(i)}:{i}")
+        pr = r.choice([0.05, 0.3, 0.8])
+        cols.append([1.0 if r.random() < pr else 0.0 for _ in range(H)])
+    return torch.tensor(cols, dtype=smp.acceptation_history.dtype).t().contiguous()
+
+
+def trace_sampler(env, algo, state, v, n, tinv, adapt=None):
+    """One `IndividualGibbsSampler.sample` step of variable `v` under the tracer.  Individual-level inputs: the latent values and
+    data, the position-indexed draws, the per-individual proposal std and the acceptance history (individuals on axis 1).
+    Outputs: new rows, decisions, alpha, and the sampler's adaptive state after the step (std, acceptance history).
+    `adapt` = (ids, seed): the step is the one in which the std adaptation fires (counter at history length - 1, random history)."""
     smp = algo.samplers[v]
+    if adapt is not None:
+        smp.acceptation_history = random_history(env, smp, adapt[0], adapt[1])
+        smp._counter = int(smp.acceptation_history.shape[0]) - 1
     leafmap, keep, _, _ = tr.state_leafmap(env, state)
     leafmap[id(smp.std)] = ("I", f"std:{v}")
+    leafmap[id(smp.acceptation_history)] = ("J", f"acceptation_history:{v}")
     got = {}
     o1, o2 = smp._update_acceptation_rate, smp._group_metropolis_step
 
@@ -817,7 +868,8 @@ def trace_sampler(env, algo, state, v, n, tinv):
         got["alpha"] = alpha
         return o2(alpha)
     smp._update_acceptation_rate, smp._group_metropolis_step = upd, gms
-    T = tr.Tracer(n, leafmap, keep + [smp.std])
+    T = tr.Tracer(n, leafmap, keep + [smp.std, smp.acceptation_history])
+    T.preload([smp.std, smp.acceptation_history])
     try:
         with T:
             smp.sample(state, temperature_inv=tinv)
@@ -827,6 +879,8 @@ def trace_sampler(env, algo, state, v, n, tinv):
     for k in ("accepted", "alpha"):
         if k in got:
             outs.append((f"{v}:{k}", T.out_node(got[k]), got[k], True))
+    outs.append((f"{v}:std", T.out_node(smp.std), smp.std, True))
+    outs.append((f"{v}:acceptation_history", T.out_node(smp.acceptation_history), smp.acceptation_history, True))
     u = [T.leaf_vals["I"][nd.k] for nd in T.nodes if nd.kind == "I" and nd.name == "draw:rand"]
     # magnitude of the float32 sums whose difference is exponentiated (for the comparison envelope of alpha)
     scale = 0.0
@@ -834,8 +888,9 @@ def trace_sampler(env, algo, state, v, n, tinv):
         x = state[k]
         x = x if isinstance(x, env.torch.Tensor) else x.value
         scale += float(x.detach().abs().max())
-    return Rec(f"sampler:{v}", n, T, outs, {"u": u[-1] if u else None, "alpha": got.get("alpha"), "var": v, "tinv": tinv,
-                                              "scale": scale + 3500.0 * saturation(env, state)})
+    return Rec(("adapt:" if adapt is not None else "sampler:") + v, n, T, outs,
+               {"u": u[-1] if u else None, "alpha": got.get("alpha"), "var": v, "tinv": tinv,
+                "scale": scale + 3500.0 * saturation(env, state)})
 
 
 def log_tol(env, alpha, scale):
@@ -865,7 +920,7 @@ def tensor_close(env, lean_vals, t, rows_skip=(), log_domain=None, extra_abs=0.0
     return f"at {idx}: lean {float(lv[tuple(idx)])!r} vs torch {float(tv[tuple(idx)])!r}"
 
 
-def validate_ops(chk, env, rec, modes, batched, seen, case):
+def validate_ops(chk, env, rec, modes, batched, seen, case, layout=None):
     """Replay every distinct operation instance that the table lowers row-wise (`r`) on random inputs of the recorded
     shapes: row j of the result must not change when the other rows of the batched arguments are re-drawn, must follow
     a re-ordering, and (for operations whose call does not mention the batch size) must be what the row alone gives."""
@@ -888,9 +943,14 @@ def validate_ops(chk, env, rec, modes, batched, seen, case):
         walk(args)
         walk(list(kwargs.values()))
         isb = {}
+        special = layout is not None and layout[i] != "0"
         for t in flat:
             k = T.node_of_id.get(id(t))
             isb[id(t)] = (k is not None and batched[k] == "1")
+            special = special or (layout is not None and k is not None and layout[k] != "0")
+        if special:
+            chk.tag("trace_op_replay", "skipped:axis-1-or-ragged-layout")   # validated by the evaluation and the synthetic programs
+            continue
         key = (nd.op, nd.params, modes[i], tuple((tuple(t.shape), str(t.dtype), isb[id(t)]) for t in flat))
         if key in seen:
             continue
@@ -952,37 +1012,67 @@ def validate_ops(chk, env, rec, modes, batched, seen, case):
 
 
 def synthetic_programs(torch):
-    """Small torch functions of x (n,4,3), y (n,3), m (n,3) bool — individual-level — and p (3,), q (1,3), w (3,2) — population-level:
+    """Small torch functions of x (n,4,3), y (n,3), m (n,3) bool, h (6,n) [individuals on axis 1] — individual-level — and
+    p (3,), q (1,3), w (3,2) — population-level:
     (name, function, expected row-local).  They exercise table entries the current leaspy code may not execute."""
     F = torch.nn.functional
     return [
-        ("ew-broadcast", lambda x, y, m, p, q, w: (x * p + y[:, None, :]) / (1 + q.exp()), True),
-        ("sum-last", lambda x, y, m, p, q, w: x.sum(dim=-1) + y.sum(dim=1, keepdim=True), True),
-        ("sum-tuple", lambda x, y, m, p, q, w: x.sum(dim=(1, 2)), True),
-        ("mean-max", lambda x, y, m, p, q, w: x.mean(dim=2).amax(dim=1) - y.amin(dim=-1), True),
-        ("where-mask", lambda x, y, m, p, q, w: torch.where(m, y, p).masked_fill(~m, 0.0), True),
-        ("softmax-row", lambda x, y, m, p, q, w: F.softmax(y * 2, dim=1) * torch.softmax(x, -1).sum(1), True),
-        ("cumsum-row", lambda x, y, m, p, q, w: x.cumsum(dim=1)[:, -1, :] + y.cumsum(-1), True),
-        ("matmul", lambda x, y, m, p, q, w: (y @ w).sum(-1, keepdim=True) + (x @ w)[:, 0, :1], True),
-        ("stack-cat", lambda x, y, m, p, q, w: torch.cat([torch.stack([y, y * 2], dim=1), x], dim=1).sum(1), True),
-        ("views", lambda x, y, m, p, q, w: x.reshape(x.shape[0], -1).view(x.shape[0], 3, 4).transpose(1, 2).unsqueeze(-1).squeeze(-1)[..., 0], True),
-        ("expand-row", lambda x, y, m, p, q, w: y.unsqueeze(1).expand(-1, 4, -1) * x + q.expand(4, 3), True),
-        ("slices", lambda x, y, m, p, q, w: x[:, 1:3, ::2].sum((1, 2)) + y[:, -1] + x[:, 0, 1], True),
-        ("clamp-pow", lambda x, y, m, p, q, w: torch.clamp(y, min=0.4, max=1.2) ** 2 + y.abs().sqrt() + torch.log1p(y) - torch.sigmoid(-y), True),
-        ("cmp-logic", lambda x, y, m, p, q, w: ((y > p) & m | (y <= 0.5)).float() + (y != y).to(torch.float32), True),
+        ("ew-broadcast", lambda x, y, m, p, q, w, h: (x * p + y[:, None, :]) / (1 + q.exp()), True),
+        ("sum-last", lambda x, y, m, p, q, w, h: x.sum(dim=-1) + y.sum(dim=1, keepdim=True), True),
+        ("sum-tuple", lambda x, y, m, p, q, w, h: x.sum(dim=(1, 2)), True),
+        ("mean-max", lambda x, y, m, p, q, w, h: x.mean(dim=2).amax(dim=1) - y.amin(dim=-1), True),
+        ("where-mask", lambda x, y, m, p, q, w, h: torch.where(m, y, p).masked_fill(~m, 0.0), True),
+        ("softmax-row", lambda x, y, m, p, q, w, h: F.softmax(y * 2, dim=1) * torch.softmax(x, -1).sum(1), True),
+        ("cumsum-row", lambda x, y, m, p, q, w, h: x.cumsum(dim=1)[:, -1, :] + y.cumsum(-1), True),
+        ("matmul", lambda x, y, m, p, q, w, h: (y @ w).sum(-1, keepdim=True) + (x @ w)[:, 0, :1], True),
+        ("stack-cat", lambda x, y, m, p, q, w, h: torch.cat([torch.stack([y, y * 2], dim=1), x], dim=1).sum(1), True),
+        ("views", lambda x, y, m, p, q, w, h: x.reshape(x.shape[0], -1).view(x.shape[0], 3, 4).transpose(1, 2).unsqueeze(-1).squeeze(-1)[..., 0], True),
+        ("expand-row", lambda x, y, m, p, q, w, h: y.unsqueeze(1).expand(-1, 4, -1) * x + q.expand(4, 3), True),
+        ("slices", lambda x, y, m, p, q, w, h: x[:, 1:3, ::2].sum((1, 2)) + y[:, -1] + x[:, 0, 1], True),
+        ("clamp-pow", lambda x, y, m, p, q, w, h: torch.clamp(y, min=0.4, max=1.2) ** 2 + y.abs().sqrt() + torch.log1p(y) - torch.sigmoid(-y), True),
+        ("cmp-logic", lambda x, y, m, p, q, w, h: ((y > p) & m | (y <= 0.5)).float() + (y != y).to(torch.float32), True),
+        ("mask-update", lambda x, y, m, p, q, w, h: _mask_update(y.sum(1)), True),
+        ("mask-rows", lambda x, y, m, p, q, w, h: _mask_rows(y, m[:, 0]), True),
+        ("history-axis1", lambda x, y, m, p, q, w, h: torch.cat([h[1:], y.sum(1).unsqueeze(0)]).mean(dim=0) + h[-1] * (h.sum(0) > 2).float(), True),
+        ("clamp-inplace", lambda x, y, m, p, q, w, h: (y * 1.0).clamp_(min=0.5, max=1.0).mul_(2.0), True),
         # not row-local
-        ("sum-axis0", lambda x, y, m, p, q, w: y - y.sum(dim=0), False),
-        ("mean-all", lambda x, y, m, p, q, w: y / y.mean(), False),
-        ("max-axis0-keep", lambda x, y, m, p, q, w: x - x.amax(dim=0, keepdim=True), False),
-        ("cumsum-axis0", lambda x, y, m, p, q, w: y.cumsum(dim=0), False),
-        ("softmax-axis0", lambda x, y, m, p, q, w: torch.softmax(y, dim=0), False),
-        ("index-axis0", lambda x, y, m, p, q, w: y - y[0], False),
-        ("slice-axis0", lambda x, y, m, p, q, w: torch.cat([y[1:], y[:1]], dim=0), False),
-        ("transpose-axis0", lambda x, y, m, p, q, w: (y.t() @ y)[None, :, 0] + y, False),
-        ("misaligned", lambda x, y, m, p, q, w: y.sum(1) * y.sum(1)[:, None], False),
-        ("expand-new-axis0", lambda x, y, m, p, q, w: y.expand(2, -1, -1).sum(0) + y.flatten()[:3], False),
-        ("stack-axis0", lambda x, y, m, p, q, w: torch.stack([y, y], dim=0).sum(1)[0] + y, False),
+        ("median-clamp", lambda x, y, m, p, q, w, h: (y.sum(1) * 1.0).clamp_(min=y.sum(1).median() / 1.2, max=y.sum(1).median() * 1.2), False),
+        ("mask-foreign", lambda x, y, m, p, q, w, h: _mask_foreign(y.sum(1)), False),
+        ("history-mean-axis1", lambda x, y, m, p, q, w, h: h.mean(dim=1)[:1] + y.sum(1), False),
+        ("history-shift", lambda x, y, m, p, q, w, h: torch.cat([h[:, 1:], h[:, :1]], dim=1).sum(0), False),
+        ("sum-axis0", lambda x, y, m, p, q, w, h: y - y.sum(dim=0), False),
+        ("mean-all", lambda x, y, m, p, q, w, h: y / y.mean(), False),
+        ("max-axis0-keep", lambda x, y, m, p, q, w, h: x - x.amax(dim=0, keepdim=True), False),
+        ("cumsum-axis0", lambda x, y, m, p, q, w, h: y.cumsum(dim=0), False),
+        ("softmax-axis0", lambda x, y, m, p, q, w, h: torch.softmax(y, dim=0), False),
+        ("index-axis0", lambda x, y, m, p, q, w, h: y - y[0], False),
+        ("slice-axis0", lambda x, y, m, p, q, w, h: torch.cat([y[1:], y[:1]], dim=0), False),
+        ("transpose-axis0", lambda x, y, m, p, q, w, h: (y.t() @ y)[None, :, 0] + y, False),
+        ("misaligned", lambda x, y, m, p, q, w, h: y.sum(1) * y.sum(1)[:, None], False),
+        ("expand-new-axis0", lambda x, y, m, p, q, w, h: y.expand(2, -1, -1).sum(0) + y.flatten()[:3], False),
+        ("stack-axis0", lambda x, y, m, p, q, w, h: torch.stack([y, y], dim=0).sum(1)[0] + y, False),
     ]
+
+
+def _mask_update(s):
+    s2 = s.clone()
+    lo = s < 1.9
+    s2[lo] *= 0.9
+    s2[s > 2.4] *= 1.1
+    s2[s2 > 2.6] = 0.0
+    return s2
+
+
+def _mask_rows(y, mk):
+    z = y.clone()
+    z[mk] *= 2.0
+    return z
+
+
+def _mask_foreign(s):
+    s2 = s.clone()
+    s2[s < 2.2] = s[s >= 2.2].sum()
+    return s2
 
 
 def case_synthetic(chk, env, lines, expect):
@@ -993,8 +1083,10 @@ def case_synthetic(chk, env, lines, expect):
         y = torch.rand((n, 3), generator=g) + 0.25
         m = torch.rand((n, 3), generator=g) < 0.6
         p, q, w = torch.rand(3, generator=g) + 0.25, torch.rand((1, 3), generator=g), torch.rand((3, 2), generator=g)
-        ins = (x, y, m, p, q, w)
-        leafmap = {id(x): ("I", "x"), id(y): ("I", "y"), id(m): ("I", "m"), id(p): ("P", "p"), id(q): ("P", "q"), id(w): ("P", "w")}
+        h = (torch.rand((6, n), generator=g) < 0.5).float()
+        ins = (x, y, m, p, q, w, h)
+        leafmap = {id(x): ("I", "x"), id(y): ("I", "y"), id(m): ("I", "m"), id(p): ("P", "p"), id(q): ("P", "q"), id(w): ("P", "w"),
+                   id(h): ("J", "h")}
         for name, f, local in synthetic_programs(torch):
             case = {"kind": "trace-synthetic", "program": name, "n": n}
             try:
@@ -1004,13 +1096,14 @@ def case_synthetic(chk, env, lines, expect):
                 # empirical locality on the real function: other rows re-drawn
                 j = 1
                 x2, y2 = x.clone(), y.clone()
-                m2 = m.clone()
+                m2, h2 = m.clone(), h.clone()
                 for r_ in range(n):
                     if r_ != j:
                         x2[r_] = torch.rand((4, 3), generator=g) + 0.25
                         y2[r_] = torch.rand(3, generator=g) + 0.25
                         m2[r_] = torch.rand(3, generator=g) < 0.6
-                out2 = f(x2, y2, m2, p, q, w)
+                        h2[:, r_] = (torch.rand(6, generator=g) < 0.5).float()
+                out2 = f(x2, y2, m2, p, q, w, h2)
                 emp = out.dim() >= 1 and out.shape[0] == n and bool((out[j] == out2[j]).all())
             except Exception as e:  # noqa
                 chk.disagree(case, "ran", f"{type(e).__name__}: {str(e)[:100]}", "synthetic program could not be recorded")
@@ -1148,6 +1241,39 @@ def search_sampler(env, name, df, ids, seed, v, tinv):
     return None
 
 
+def search_adapt(env, name, df, ids, seed, v):
+    """Targeted search for the adaptation of the per-individual proposal std: `_update_std` is called directly, at the step
+    where it acts, on two samplers that agree on the kept individual's std and acceptance history and differ for the others
+    (widely spread std values, so that cohort-relative rules bite).  The kept individual's new std must be bit-identical."""
+    torch = env.torch
+    n = len(ids)
+    cdf = cohort_frame_rep(env, df, ids)
+    with core.quiet():
+        _, _, algo, _, _, _ = trace_state(env, name, cdf, ids, seed)
+    smp = algo.samplers[v]
+
+    def adapted(seed_of):
+        smp.std = torch.tensor([math.exp(random.Random(f"adstd:{seed_of(i)}:{i}").uniform(-3.0, 3.0)) for i in ids], dtype=smp.std.dtype)
+        smp.acceptation_history = random_history(env, smp, ids, seed, seed_of)
+        smp._counter = int(smp.acceptation_history.shape[0]) - 1
+        before = smp.std.detach().clone()
+        smp._update_std()
+        return before, smp.std.detach().clone(), smp.acceptation_history.detach().clone()
+    b0, s0, h0 = adapted(lambda i: seed)
+    for jk in sorted(range(n), key=lambda j: -float(b0[j]))[:2] + sorted(range(n), key=lambda j: float(b0[j]))[:1]:
+        for trial in range(4):
+            ps = seed + 15485863 * (trial + 1)
+            b1, s1, h1 = adapted(lambda i: seed if i == ids[jk] else ps)
+            if not (float(b0[jk]) == float(b1[jk]) and bool((h0[:, jk] == h1[:, jk]).all())):
+                continue
+            if fmt_float(float(s0[jk])) != fmt_float(float(s1[jk])):
+                return (f"_update_std of the sampler of {v} (adaptation step): individual {ids[jk]} with std {float(b0[jk])!r} and acceptance history "
+                        f"{[int(x) for x in h0[:, jk].tolist()]} gets std {float(s0[jk])!r} in the cohort with stds {[round(float(x), 4) for x in b0]} but "
+                        f"{float(s1[jk])!r} when only the other individuals' stds / histories change (stds {[round(float(x), 4) for x in b1]})",
+                        {"search": "adapt-others-replaced", "ids": ids, "keep": [ids[jk]], "perturb_seed": ps, "var": v})
+    return None
+
+
 def case_trace(chk, env, name, seed, lines, expect, with_eval=True, samplers=1, big=True):
     """(v) record the individual-level computations of model `name` on three cohorts and queue the Lean requests."""
     rng = random.Random(f"C07:trace:{name}:{seed}")
@@ -1181,6 +1307,15 @@ def case_trace(chk, env, name, seed, lines, expect, with_eval=True, samplers=1, 
                     r2 = trace_sampler(env, algo, state, v, len(ids), tinv)
                     r2.extra.update(cohort=tag, ids=ids)
                     recs.append(r2)
+                # the step in which the per-individual std adaptation fires (one variable per cohort)
+                for v in vs[:1]:
+                    reset_state(env, model, ds, state, lat)
+                    smp = algo.samplers[v]
+                    smp.std = env.torch.tensor([math.exp(random.Random(f"trstd:{seed}:{i}").uniform(-2.0, 0.5)) for i in ids], dtype=smp.std.dtype)
+                    env.torch.manual_seed(seed + 1)
+                    r3 = trace_sampler(env, algo, state, v, len(ids), tinv, adapt=(ids, seed))
+                    r3.extra.update(cohort=tag, ids=ids)
+                    recs.append(r3)
     except Exception as e:  # noqa
         chk.impl_failure(case, f"recording the individual-level computations failed: {s3.err_class(env, e)}: {type(e).__name__}: {str(e)[:200]}")
         chk.case(("trace", name, seed), nontrivial=False, tags={"kind": "trace", "outcome": "error"})
@@ -1221,6 +1356,8 @@ def case_trace(chk, env, name, seed, lines, expect, with_eval=True, samplers=1, 
 def handle_trace_response(chk, env, resp, kind, case, info, seen_ops):
     rec = info["rec"]
     parts = dict(p.split("=", 1) for p in resp.split(" ")) if "=" in resp else {}
+    if kind.startswith("trace") and parts.get("unsupported", "_") != "_":
+        rec.extra["unsupported"] = parts["unsupported"]
     if kind == "trace-skeleton":
         found = None
         try:
@@ -1253,7 +1390,7 @@ def handle_trace_response(chk, env, resp, kind, case, info, seen_ops):
                 chk.tag("trace_python_escapes", ("assert:" if nd.is_assert else "ESCAPE:") + nd.site.split("<")[0])
         if "modes" in parts:
             try:
-                validate_ops(chk, env, rec, parts["modes"], parts["batched"], seen_ops, case)
+                validate_ops(chk, env, rec, parts["modes"], parts["batched"], seen_ops, case, parts.get("layout"))
             except Exception as e:  # noqa
                 chk.note(f"operation replay failed: {type(e).__name__}: {str(e)[:120]}")
         if ok:
@@ -1270,6 +1407,9 @@ def handle_trace_response(chk, env, resp, kind, case, info, seen_ops):
         try:
             if rec.what == "terms":
                 found = search_terms(env, info["name"], info["df"], rec.extra["ids"], info["seed"], labels[:40])
+            elif rec.what.startswith("adapt"):
+                found = search_adapt(env, info["name"], info["df"], rec.extra["ids"], info["seed"], rec.extra["var"]) or \
+                    search_sampler(env, info["name"], info["df"], rec.extra["ids"], info["seed"], rec.extra["var"], rec.extra["tinv"])
             else:
                 found = search_sampler(env, info["name"], info["df"], rec.extra["ids"], info["seed"], rec.extra["var"], rec.extra["tinv"])
         except Exception as e:  # noqa
@@ -1288,11 +1428,15 @@ def handle_trace_response(chk, env, resp, kind, case, info, seen_ops):
                          "positive control: the analysis accepted a variable that is known to depend on the whole batch")
         return
     # evaltrace
+    if rec.extra.get("unsupported"):
+        # an operation outside the table has no semantics (the analysis has rejected the program: that is the verdict)
+        chk.tag("trace_eval", f"{rec.what.split(':')[0]}:not-evaluated(operation outside the table)")
+        return
     if not resp.startswith("out="):
         chk.disagree(case, "values", resp[:200], "the lowered program could not be evaluated")
         return
     skip = ()
-    if rec.what.startswith("sampler") and rec.extra.get("u") is not None and rec.extra.get("alpha") is not None:
+    if rec.what.startswith(("sampler", "adapt")) and rec.extra.get("u") is not None and rec.extra.get("alpha") is not None:
         u, al = rec.extra["u"].double(), rec.extra["alpha"].detach().double()
         lt = log_tol(env, al, rec.extra.get("scale", 0.0))
         skip = [j for j in range(rec.n) if math.isfinite(float(al[j])) and
@@ -1314,6 +1458,8 @@ def handle_trace_response(chk, env, resp, kind, case, info, seen_ops):
             bad = f"{lab}: shape {sh} vs torch {tr.shp(t.shape)}"
             break
         sat = rec.extra.get("sat", 0)
+        if skip and lab.endswith((":std", ":acceptation_history")):
+            continue        # an ambiguous decision feeds the history (individuals on axis 1) and, through it, the std
         msg = tensor_close(env, vals, t, skip if lab.endswith((":new", ":accepted")) else (),
                            log_domain=rec.extra.get("scale", 0.0) if lab.endswith(":alpha") else None,
                            extra_abs=0.7 * sat if lab.startswith("nll_attach") else 0.0)
@@ -1407,6 +1553,9 @@ def run(chk: core.Check):
     rng.shuffle(pm)
     for name in (pm[:3] if quick else pm):
         case_personalize(chk, env, name, rng.randrange(1, 10 ** 6), ALGOS)
+    for name in (["logistic_diag_noise"] if quick else ["logistic_diag_noise", "linear_diag_noise", "shared_speed_logistic_diag_noise",
+                                                        "univariate_logistic"]):
+        case_long_adapt(chk, env, name, rng.randrange(1, 10 ** 6))
     # quick: always a model whose optimiser start point is drawn from the prior (the joint model's start is deterministic,
     # so it cannot reveal anything that depends on the workers' random streams); thorough: all three
     nj = ["logistic_diag_noise", "linear_scalar_noise"]
@@ -1427,6 +1576,8 @@ def replay_case(chk, env, case, lines, expect):
         case_personalize(chk, env, case["model"], case["seed"], [(case["algo"], case["kw"])])
     elif k == "n_jobs":
         case_njobs(chk, env, case["model"], case["seed"], [case.get("worker_hashseed", 1)])
+    elif k == "personalize-long":
+        case_long_adapt(chk, env, case["model"], case["seed"], case.get("n_iter", 1200))
     elif k == "trace":
         case_trace(chk, env, case["model"], case["seed"], lines, expect, with_eval=True, samplers=3, big=True)
     elif k == "trace-synthetic":
